@@ -44,6 +44,9 @@ def kf_classify(case):
     act = case["action"].split("_KF_")[0]
     obs, intended = case["observed"], case["intended"]
     out = set()
+    if place == "other_task" and obs["res"][0] == "exc" and not obs["s1"] and \
+            all(path.startswith("res") or path == "s1" for path in case["diff"]):
+        return ["KF-C11-cross-task-reset"]
     for path in case["diff"]:
         if path in ("res[3]", "res[4]") and act == "Pull" and place == "other_task":
             out.add("KF-C11-gen-sees-consumer-state")
